@@ -42,6 +42,17 @@ pub fn at_point() {
     }
 }
 
+/// Is any other controlled thread still unfinished?
+pub fn others_alive() -> bool {
+    let me = ME.with(|m| m.borrow().clone());
+    if let Some((tid, ctl)) = me {
+        let g = ctl.m.lock().expect("ctl");
+        g.states.iter().enumerate().any(|(t, s)| t != tid && *s != TState::Finished)
+    } else {
+        false
+    }
+}
+
 pub fn choose(n: usize) -> usize {
     let me = ME.with(|m| m.borrow().clone());
     if let Some((_tid, ctl)) = me {
